@@ -208,11 +208,14 @@ def _has(stmts, kinds):
 class Stmts:
     """Statement translator.  `ret(node_or_None, ex)` renders a returned value, `raise_(node, ex)` a raise."""
 
-    def __init__(self, ex, ret=None, raise_=None, indent="  "):
+    def __init__(self, ex, ret=None, raise_=None, indent="  ", stmt_hook=None):
         self.ex = ex
         self.ret = ret or (lambda v, ex: "none" if v is None else ex.go(v))
         self.raise_ = raise_
         self.ind = indent
+        # property specific statement shapes (e.g. `try: x = next(it) … except StopIteration: …` over a
+        # state-passing iterator): `stmt_hook(s, rest, k, depth, self)` returns a Lean term or None
+        self.stmt_hook = stmt_hook
 
     def block(self, stmts, k, depth=1):
         """Lean term for the statement list; `k` is the term for falling off its end."""
@@ -221,6 +224,10 @@ class Stmts:
             return k
         s, rest = stmts[0], stmts[1:]
         ex = self.ex
+        if self.stmt_hook is not None:
+            r = self.stmt_hook(s, rest, k, depth, self)
+            if r is not None:
+                return r
         if isinstance(s, ast.Pass) or isinstance(s, ast.Assert) or (isinstance(s, ast.Expr) and isinstance(s.value, ast.Constant)):
             return self.block(rest, k, depth)
         if isinstance(s, ast.Return):
@@ -313,10 +320,10 @@ class Stmts:
                 % (tup, src, tup, pat, pad, self.ind, self.ind, step, tup, pad, tail))
 
 
-def function(fn, name, params, ret_type, ex, ret=None, raise_=None, k="none", binders=""):
+def function(fn, name, params, ret_type, ex, ret=None, raise_=None, k="none", binders="", stmt_hook=None):
     """A Lean `def` for the python FunctionDef `fn`.  `params`: list of (python name or None, lean binder text);
     python names are bound in the expression translator."""
-    st = Stmts(ex, ret=ret, raise_=raise_)
+    st = Stmts(ex, ret=ret, raise_=raise_, stmt_hook=stmt_hook)
     saved = set(ex.bound)
     for p, _ in params:
         if p:
